@@ -172,8 +172,10 @@ func init() {
 	Register(&Job{Name: "C18/cluster/snapshot-histories-3", Prop: "C18", Bound: 0, BoundT: 1, Budget: 50, BudgetT: 600, Shards: 12,
 		Desc: "real Agent behind the real Cluster API with a stub provider: all sequences of <=3 membership snapshots out of 12 (every subset of {A,B,C,D} containing the observing node A, plus lists with duplicate entries), fresh Member objects each time; after every snapshot Members(), the MemberJoin/LeaveEvents since the previous one and HasKind(k1..k4) are compared with the set model",
 		Make: func() vsched.Instance { return engMembership(3) }})
-	Register(&Job{Name: "C18/cluster/snapshot-histories-4", Prop: "C18", Tier: "thorough", Bound: 0, BoundT: 0, Budget: 50, BudgetT: 900, Shards: 12,
-		Desc: "all sequences of <=4 membership snapshots out of 12", Make: func() vsched.Instance { return engMembership(4) }})
+	Register(&Job{Name: "C18/cluster/snapshot-histories-4", Prop: "C18", Bound: 0, BoundT: 0, Budget: 50, BudgetT: 900, Shards: 12,
+		Desc: "all sequences of <=4 membership snapshots out of 12 (22620 histories)", Make: func() vsched.Instance { return engMembership(4) }})
+	Register(&Job{Name: "C18/cluster/snapshot-histories-5", Prop: "C18", Tier: "thorough", Bound: 0, BoundT: 0, Budget: 50, BudgetT: 1200, Shards: 12,
+		Desc: "all sequences of <=5 membership snapshots out of 12 (271452 histories)", Make: func() vsched.Instance { return engMembership(5) }})
 	_ = fmt.Sprint
 }
 
@@ -385,8 +387,10 @@ func init() {
 	Register(&Job{Name: "C20/provider/event-histories-3", Prop: "C20", Bound: 0, BoundT: 1, Budget: 50, BudgetT: 600, Shards: 12,
 		Desc: "real SelfManaged provider (zeroconf replaced by an inert shim, member-ping ticker fired explicitly) reporting to a stub agent, outbound messages captured by a pool Remoter: all sequences of <=3 events out of 12 (handshake from B/C/D, member lists [B] [C,D] [A,B,C] [B,B], unreachable report for B/C/D/a non-member address, ticker): member set, reports to the agent, handshake reply, ping targets, no provider restart",
 		Make: func() vsched.Instance { return engProvider(3) }})
-	Register(&Job{Name: "C20/provider/event-histories-4", Prop: "C20", Tier: "thorough", Bound: 0, BoundT: 0, Budget: 50, BudgetT: 900, Shards: 12,
-		Desc: "all sequences of <=4 events out of 12", Make: func() vsched.Instance { return engProvider(4) }})
+	Register(&Job{Name: "C20/provider/event-histories-4", Prop: "C20", Bound: 0, BoundT: 0, Budget: 50, BudgetT: 900, Shards: 12,
+		Desc: "all sequences of <=4 events out of 12 (22620 histories)", Make: func() vsched.Instance { return engProvider(4) }})
+	Register(&Job{Name: "C20/provider/event-histories-5", Prop: "C20", Tier: "thorough", Bound: 0, BoundT: 0, Budget: 50, BudgetT: 1200, Shards: 12,
+		Desc: "all sequences of <=5 events out of 12 (271452 histories)", Make: func() vsched.Instance { return engProvider(5) }})
 }
 
 // ------------------------------------------------------------------ C19 activations
